@@ -244,8 +244,8 @@ int main(int argc, char **argv) {
     A = vc::parse_args(argc, argv);
     if (!A.replay.empty()) return replay(A.replay);
     g_stats.init(A); g_stats.max_samples = 6; vc::install_crash_capture();
-    if (A.mode.empty() || A.mode == "steady") steady();
-    if (g_stats.failures.empty() && (A.mode.empty() || A.mode == "limits")) limits();
+    if (A.mode.empty() || A.mode == "steady" || A.mode == "c01") steady();
+    if (g_stats.failures.empty() && (A.mode.empty() || A.mode == "limits" || A.mode == "c01")) limits();
     g_stats.write();
     return g_stats.failures.empty() ? 0 : 1;
 }
